@@ -173,6 +173,10 @@ func (le *linEval) form(v ssa.Value) LinF {
 			}
 		}
 	case *ssa.Phi:
+		// a loop variable (a header phi with a back edge) is a symbol: the facts of the current iteration are about it
+		if isLoopVar(x) {
+			return le.sym("loopvar:"+x.Name(), nonNegLoopVar(x))
+		}
 		le.note(x)
 		if i, ok := le.choice[x]; ok && i < len(x.Edges) {
 			return le.form(x.Edges[i])
@@ -477,4 +481,57 @@ func linInfeasible(facts []LinF) bool {
 		}
 	}
 	return false
+}
+
+func isLoopVar(p *ssa.Phi) bool {
+	b := p.Block()
+	for _, pr := range b.Preds {
+		if b.Dominates(pr) {
+			return true
+		}
+	}
+	return false
+}
+
+// nonNegLoopVar: starts at a non-negative constant and every back edge adds a non-negative constant (or keeps it).
+func nonNegLoopVar(p *ssa.Phi) bool {
+	if b, ok := p.Type().Underlying().(*types.Basic); ok && b.Info()&types.IsUnsigned != 0 {
+		return true
+	}
+	blk := p.Block()
+	var ok func(v ssa.Value, depth int) bool
+	ok = func(v ssa.Value, depth int) bool {
+		if depth > 4 {
+			return false
+		}
+		switch x := v.(type) {
+		case *ssa.Const:
+			if x.Value != nil && x.Value.Kind() == constant.Int {
+				n, exact := constant.Int64Val(x.Value)
+				return exact && n >= 0
+			}
+		case *ssa.Phi:
+			if x == p {
+				return true
+			}
+			for _, e := range x.Edges {
+				if !ok(e, depth+1) {
+					return false
+				}
+			}
+			return len(x.Edges) > 0
+		case *ssa.BinOp:
+			if x.Op == token.ADD {
+				return ok(x.X, depth+1) && ok(x.Y, depth+1)
+			}
+		}
+		return false
+	}
+	for i, e := range p.Edges {
+		_ = blk.Preds[i]
+		if !ok(e, 0) {
+			return false
+		}
+	}
+	return true
 }
